@@ -21,7 +21,7 @@ func init() { rt.Register(&c08{}) }
 
 func (c08) ID() string { return "C08" }
 
-var c08Kinds = []string{"plain", "plain-mget", "plain-full", "plain-named", "ordered", "aggr", "aggr-ordered", "aggr-inter", "aggr-inter-ordered", "aggr-all", "delete", "delete-mget", "delete-full", "plain-filtered", "delete-filtered", "delete-mget-filtered"}
+var c08Kinds = []string{"plain", "plain-mget", "plain-full", "plain-named", "ordered", "aggr", "aggr-ordered", "aggr-inter", "aggr-inter-ordered", "aggr-all", "delete", "delete-mget", "delete-full", "plain-filtered", "delete-filtered", "delete-mget-filtered", "delete-mget-empty"}
 
 // counts near the top of the integer range ("everything after the offset")
 var c08Huge = []int{math.MaxInt64, math.MaxInt64 - 1, 1 << 62}
@@ -111,6 +111,9 @@ func c08Store(r int, kind string) []refstore.Pair {
 		ps = append(ps, refstore.Pair{K: "k", V: "drop"}, refstore.Pair{K: "kzz", V: "drop"})
 	}
 	ps = append(ps, refstore.Pair{K: "m1", V: "zz"})
+	if strings.HasSuffix(kind, "-mget-empty") && r > 0 {
+		ps = append(ps, refstore.Pair{K: "", V: "v000"})
+	}
 	return refstore.New(ps).Pairs() // key order
 }
 
@@ -128,6 +131,19 @@ func c08Where(kind string, r int) string {
 			fmt.Fprintf(&b, ", 'k%03d', 'k%03d_'", i, i)
 		}
 		b.WriteString(") & value != 'drop'")
+		return b.String()
+	case strings.HasSuffix(kind, "-mget-empty"):
+		// the empty key is a key like any other: it is stored, listed and removed (wave 15, C08-ab:
+		// the direct removal of an unlimited DELETE skipped it, the limited statements did not)
+		var b strings.Builder
+		b.WriteString("key in ('k999'")
+		for i := r - 1; i >= 0; i-- {
+			fmt.Fprintf(&b, ", 'k%03d'", i)
+			if i == r/2 {
+				b.WriteString(", ''")
+			}
+		}
+		b.WriteString(")")
 		return b.String()
 	case strings.HasSuffix(kind, "-mget"):
 		var b strings.Builder
